@@ -47,7 +47,8 @@ def gen(rng, tier):
             'shift': [rng.randrange(0, nmesh), rng.randrange(0, nmesh), rng.randrange(0, nmesh)],
             'paste': rng.choice(['TSC', 'TSC', 'CIC']), 'compensated': rng.random() < 0.5,
             'interlaced': rng.random() < 0.5, 'logk': rng.random() < 0.3,
-            'kbins': rng.choice([None, 3, 5]), 'mubins': rng.choice([None, 1, 2, 4]),
+            'kbins': rng.choice([None, 3, 5, 'array']), 'mubins': rng.choice([None, 1, 2, 4, 'array']),
+            'k_max_frac': rng.choice([None, None, 0.6, 1.5]),
             'poles': rng.choice([None, [0], [0, 2], [0, 2, 4]]), 'dtype': rng.choice(['f4', 'f4', 'f8']),
             'T1': rng.choice([1, 2, 3, 5, 16]), 'T2': rng.choice([1, 2, 3, 5, 16]),
             'sched': gen_sched(rng), 'compiled': rng.random() < 0.1}
@@ -68,7 +69,14 @@ def _positions(case, which='pos', shift=None, dtype=np.float32):
 
 def _call(ps, case, pos, w, nthread, pos2=None, w2=None):
     dt = np.float32 if case['dtype'] == 'f4' else np.float64
-    return ps.calc_power(pos.copy(), case['L'], kbins=case['kbins'], mubins=case['mubins'], logk=case['logk'],
+    kny = np.pi * case['nmesh'] / case['L']
+    kbins, mubins = case['kbins'], case['mubins']
+    if kbins == 'array':
+        kbins = np.array([0.0, 0.21, 0.5, 0.77, 1.0]) * kny
+    if mubins == 'array':
+        mubins = np.array([0.0, 0.3, 0.55, 1.0])
+    kmax = None if case.get('k_max_frac') is None else case['k_max_frac'] * kny
+    return ps.calc_power(pos.copy(), case['L'], kbins=kbins, mubins=mubins, k_max=kmax, logk=case['logk'],
                          paste=case['paste'], nmesh=case['nmesh'], compensated=case['compensated'],
                          interlaced=case['interlaced'], w=None if w is None else w.copy(),
                          pos2=None if pos2 is None else pos2.copy(), w2=None if w2 is None else w2.copy(),
